@@ -141,7 +141,7 @@ def check(run: Run) -> None:
                                 continue
                             if da != db:
                                 probs.append({"what": "dumps", "data": d.hex(), "observed": da.hex(), "expected": db.hex()})
-                            if bool(a[1]) != bool(b[1]) or not (a[1] == T(d)):
+                            if bool(a[1]) != bool(b[1]) or (a[1] == T(d)) != (b[1] == R(d)):   # (a NaN field makes == false in both)
                                 probs.append({"what": "bool / == of parsed instances", "observed": "differs", "expected": "as the one-shot class"})
                     try:
                         if structs.py_value(T(), T) != structs.py_value(R(), R) or T().dumps() != R().dumps():
